@@ -435,35 +435,39 @@ inductive RefStep where
   | ch (c : Ch)
 deriving Repr
 
+/-- Classification of a decoded code point: control characters are errors, anything else is a character. -/
+def refClassify (width : Nat → Int) (n cp : Nat) : RefStep :=
+  if cp < 0x20 then .err "C0 control"
+  else if cp = 0x7f then .err "DEL"
+  else if 0x80 ≤ cp ∧ cp < 0xa0 then .err "C1 control"
+  else if width cp < 0 then .err "non-printable"
+  else .ch ⟨n, cp, width cp⟩
+
 /-- Decode one character from the *effective* input (already cut at the length and at the first NUL).
     Errors: C0 control, DEL, C1 control, invalid lead byte, truncated sequence (too few bytes left, or a
     byte that is not a continuation byte where one is required). -/
 def refStep (width : Nat → Int) (bs : List Nat) : RefStep :=
-  let classify (n cp : Nat) : RefStep :=
-    if cp < 0x20 then .err "C0 control"
-    else if cp = 0x7f then .err "DEL"
-    else if 0x80 ≤ cp ∧ cp < 0xa0 then .err "C1 control"
-    else if width cp < 0 then .err "non-printable"
-    else .ch ⟨n, cp, width cp⟩
   match bs with
   | [] => .eof
   | b0 :: rest =>
-    if b0 < 0x80 then classify 1 b0
+    if b0 < 0x80 then refClassify width 1 b0
     else if b0 < 0xc0 then .err "invalid lead byte (continuation or C1 byte)"
     else if b0 < 0xe0 then
       match rest with
-      | b1 :: _ => if isCont b1 then classify 2 ((b0 % 32) * 64 + b1 % 64) else .err "truncated sequence (bad continuation)"
+      | b1 :: _ =>
+        if isCont b1 then refClassify width 2 (b0 % 32 * 64 + b1 % 64) else .err "truncated sequence (bad continuation)"
       | _ => .err "truncated sequence"
     else if b0 < 0xf0 then
       match rest with
       | b1 :: b2 :: _ =>
-        if isCont b1 && isCont b2 then classify 3 (((b0 % 16) * 64 + b1 % 64) * 64 + b2 % 64)
+        if isCont b1 && isCont b2 then refClassify width 3 ((b0 % 16 * 64 + b1 % 64) * 64 + b2 % 64)
         else .err "truncated sequence (bad continuation)"
       | _ => .err "truncated sequence"
     else if b0 < 0xf8 then
       match rest with
       | b1 :: b2 :: b3 :: _ =>
-        if isCont b1 && isCont b2 && isCont b3 then classify 4 ((((b0 % 8) * 64 + b1 % 64) * 64 + b2 % 64) * 64 + b3 % 64)
+        if isCont b1 && isCont b2 && isCont b3 then
+          refClassify width 4 (((b0 % 8 * 64 + b1 % 64) * 64 + b2 % 64) * 64 + b3 % 64)
         else .err "truncated sequence (bad continuation)"
       | _ => .err "truncated sequence"
     else .err "invalid lead byte (>= 0xf8)"
